@@ -20,6 +20,7 @@ type pinnedCase struct {
 	Starts  []int
 	OpStart int
 	Mode    string
+	Clone   bool
 	Cat     *catEntry
 	Comment string
 }
@@ -41,7 +42,7 @@ var pinned = []pinnedCase{
 	// --- known findings, defects of the dependency dlclark/regexp2 v2.5.2 (engine pair)
 	{Kind: "diff", Src: `s|[^q]`, Flags: "", Subj: us("sab"), Comment: "regexp2: negated one-character class (Notone) mis-analysed in alternation / after an optional character"},
 	{Kind: "diff", Src: `\B`, Flags: "", Subj: []uint16{0xE0}, Comment: "regexp2: \\b / \\B use Unicode categories L, Mn, Nd, Pc instead of [A-Za-z0-9_]"},
-	{Kind: "diff", Src: `[\--_]`, Flags: "", Subj: us("/"), Comment: "regexp2: an escaped dash is not accepted as the start of a class range"},
+	{Kind: "diff", Src: `[\--_]`, Flags: "", Subj: us("/"), Comment: "fixed (inbox C20-h): regexp2 did not accept an escaped dash as end point of a class range"},
 	{Kind: "diff", Src: `\w\ud83d\ude00`, Flags: "", Subj: []uint16{'a', 0xD83D, 0xDE00}, Comment: "regexp2: literal runs containing surrogate code units are searched as Go strings (U+FFFD)"},
 	{Kind: "diff", Src: `.`, Flags: "", Subj: []uint16{0x2028}, Comment: "regexp2: '.' matches U+2028 / U+2029"},
 	{Kind: "diff", Src: `[\Dx]`, Flags: "", Subj: us("x"), Comment: "regexp2: class items following \\D are dropped"},
@@ -59,6 +60,14 @@ var pinned = []pinnedCase{
 	{Kind: "diff", Src: `a?`, Flags: "", Subj: []uint16{0xE9, 'a', 'b'}, Comment: "fixed: split emitted an extra piece for an empty match right after a separator (regexp2 iteration)"},
 	{Kind: "diff", Src: `x?`, Flags: "", Subj: us("xb"), Comment: "fixed: split, same on the forced regexp2 variant"},
 	{Kind: "diff", Src: `(?:)`, Flags: "y", Subj: us(""), Starts: []int{0}, OpStart: 22, Comment: "fixed: replace with lastIndex > length: Go panic slice bounds out of range"},
+	{Kind: "diff", Src: `a`, Flags: "g", Subj: us("ba"), Mode: "subclass", Clone: true, Comment: "fixed: new Sub(regexp) got RegExp.prototype (inbox C20-g)"},
+	// --- found by the seed sweeps
+	{Kind: "diff", Src: `\W*(?:A\d){2}`, Flags: "", Subj: us("A1A1"), Comment: "regexp2: unbounded set loop followed by a counted group {2} that starts with a literal outside the set never matches"},
+	{Kind: "diff", Src: `\uffff{2}c`, Flags: "", Subj: []uint16{9, 0xFFFF, 0xFFFF, 'c'}, Comment: "regexp2: literal run containing U+FFFF (internal sentinel)"},
+	{Kind: "diff", Src: `[^\ud83d\ude01#](?:.[^\ud800\udc00#])`, Flags: "g", Subj: []uint16{'A', 'A', 0xD83D, 0xDE01}, Comment: "regexp2: classes containing surrogate code units (set search through Go strings)"},
+	{Kind: "diff", Src: `\$+\B`, Flags: "", Subj: us("$$A"), Comment: "regexp2: a loop of non-word characters is made atomic when \\B follows"},
+	{Kind: "diff", Src: `[\W\t-xx]`, Flags: "", Subj: us("x"), Comment: "regexp2: \\W inside a class with overlapping items loses members"},
+	{Kind: "diff", Src: `[\$-\-\n]`, Flags: "g", Subj: us("$$"), Comment: "fixed (inbox C20-h): regexp2 rejected this class that RE2 accepted and createRegexp2 panicked with a Go error"},
 }
 
 func runPinned(c *core.Ctx, p pinnedCase) core.Result {
@@ -105,7 +114,7 @@ func runPinned(c *core.Ctx, p pinnedCase) core.Result {
 		mode = "proto-exec-assign"
 	}
 	d := &diffCase{rawSrc: us(p.Src), flags: p.Flags, subj: p.Subj, starts: starts, opStart: p.OpStart, repl: [][]uint16{us("$&"), us("[$1|$2]")}, limits: []int{2},
-		mode: mode, variants: []string{"pre", "post"}, origin: "pinned: " + p.Comment}
+		mode: mode, clone: p.Clone, variants: []string{"pre", "post"}, origin: "pinned: " + p.Comment}
 	c.Stats.Inc("pinned:diff")
 	o := execDiff(d, nil)
 	if o.inconcl != "" {
